@@ -2,10 +2,13 @@
 Decided statically: the remap tables with affine coordinates (get / get_kmer / slice / rc under the is_rc flag; prefix /
 suffix / slice constructors with their range guards) — closed under composition, so nesting to any depth follows; view
 discipline: every renderer / converter / comparison (bytes, ascii, to_dna_string, to_owned, Display, Debug, ==) reads
-each base through the view at positions 0..len in order and never reads the backing string directly; the Hamming
+each base through the view at positions 0..len in order and never reads the backing string directly; and, exactly, on a
+symbolic backing string: to_owned / bytes / ascii / to_dna_string / Display / Debug of views at word-aligned and unaligned
+starts, lengths across word boundaries and both strands equal the substring's (bit-for-bit canonical DnaString for
+to_owned), and == is decided by comparing every view position, over same / different backing strings; the Hamming
 distance covers every position exactly once, compares self with other at equal view positions, for lengths across block
 boundaries and for forward / reverse-complemented / mixed operands."""
-from .. import dt_seq
+from .. import dt_seq, lemmas
 
 ASSUMPTIONS = ["coordinates do not overflow usize"]
 
@@ -15,4 +18,5 @@ def run(F, rep):
     dt_seq.slice_view_tables(F, rep, "C15.4")
     dt_seq.dnastring_view_ctors(F, rep, "C15.4")
     dt_seq.slice_renderers(F, rep, "C15.1")
+    lemmas.slice_exact_lemmas(F, rep, "C15.1", quick=(rep.tier != "thorough"))
     dt_seq.hamming_dist_table(F, rep, "C15.2")
